@@ -204,6 +204,18 @@ def run_task(task):
             o['concretised'] = m is not None
             o['model'] = extract_model(L, lay, m if m is not None else m0)
         res['obls'].append(o)
+        if task.get('diff'):
+            # differential run of the same query on the other installed z3 (4.8.12 binary), from the SMT-LIB2 dump
+            import subprocess, tempfile
+            with tempfile.NamedTemporaryFile('w', suffix='.smt2', delete=False) as f:
+                f.write('(set-logic ALL)\n' + s.to_smt2())
+            try:
+                p = subprocess.run(['/usr/bin/z3', '-T:120', f.name], stdout=subprocess.PIPE, stderr=subprocess.PIPE, text=True, timeout=150)
+                other = 'error' if '(error' in p.stdout else (p.stdout.strip().split('\n')[0] or 'unknown')
+            except Exception:  # noqa
+                other = 'timeout'
+            os.unlink(f.name)
+            res['obls'].append({'name': '%s D=%d B=%d differential: z3 4.8.12 on the dumped soundness query agrees with z3 5.1.0 (%s)' % (kind, D, B, r), 'verdict': other, 'expect': r, 'secs': 0.0})
         r2, secs2, s2 = solve(base + asserts, timeout)
         res['obls'].append({'name': '%s D=%d B=%d soundness twin: constraints satisfiable' % (kind, D, B), 'verdict': r2, 'expect': 'sat', 'secs': secs2})
         # ---- completeness: honest hints
